@@ -3,8 +3,10 @@ package evaluator
 import (
 	"errors"
 	"fmt"
+	"sort"
 	"strings"
 
+	"github.com/textwire/textwire/v2/ast"
 	"github.com/textwire/textwire/v2/config"
 	"github.com/textwire/textwire/v2/fail"
 	"github.com/textwire/textwire/v2/object"
@@ -28,6 +30,19 @@ func isTruthy(obj object.Object) bool {
 	}
 
 	return true
+}
+
+// sortedKeys returns the keys of an object literal in alphabetical order
+func sortedKeys(pairs map[string]ast.Expression) []string {
+	keys := make([]string, 0, len(pairs))
+
+	for key := range pairs {
+		keys = append(keys, key)
+	}
+
+	sort.Strings(keys)
+
+	return keys
 }
 
 func isError(obj object.Object) bool {
